@@ -11,6 +11,16 @@ C30  spec/WsWriter/WsWriter.tla models NextWriter / Write / WriteString / ReadFr
      inflated) and compared byte for byte with what was written, then read back by a real Conn of the opposite role.
      Verdict sources: validator (`wire:<rule>`), independent reassembly (`roundtrip-parser:*`), real reader
      (`roundtrip-reader:*`).  A different but valid fragmentation / a different error result than the model's is drift.
+     Streaming call kinds (`via` of the Write action; the message is the concatenation of all bytes accepted between
+     NextWriter and Close): Write, WriteString, io.Copy = ReadFrom from a source that is not an io.WriterTo and returns
+     (0, io.EOF) separately ("r"), the last bytes TOGETHER with io.EOF ("re"), either in chunks of a few bytes
+     ("rc", "rce"); on a flate-wrapped writer io.Copy / io.WriteString fall back to Write (also replayed).
+     Blocking assumption (spec/WsWriter/WsWriterPool.tla + harness mode `stall`): a frame handed to the network stays
+     this connection's frame while the write is pending -- net.Conn.Write parked on entry before it looks at its
+     argument (`netwrite`), or the final frame queued behind the write mutex held by a stalled ping (`mutex`) --
+     also when the write buffer comes from a WriteBufferPool shared with another connection that writes a message of
+     the same length meanwhile (harness-owned LIFO pool: deterministic reuse).  Signatures pool:stalled-write-mixed,
+     pool:queued-write-mixed; setup trouble (park never reached, writer never returns, pool unused) is drift.
 
 C31  spec/WsHandshake/WsHandshake.tla: decision tables (upgrade request classes x configuration -> response, close
      code validity 0..5000 + 65535, close reason UTF-8 classes, websocketTransport.Close(code, len(reason))) with the
@@ -41,6 +51,8 @@ known deviations above so that they are not masked by them:
   m5 WriteControl limit 125 -> 126                                                    wire:control-longer-than-125 / unparsable
   m6 PreparedMessage.frame: cache lookup key ignores `compress`                       wire:rsv1-without-extension
   m7 flushFrame: FIN also set on a non-final fragment that exactly fills the buffer   wire:continuation-without-message
+  s1 (seeded) flushFrame: endMessage (pool Put) BEFORE c.write of the final frame      pool:stalled-write-mixed, pool:queued-write-mixed
+  s2 (seeded) ReadFrom: bytes returned together with io.EOF not counted                roundtrip-parser:bytes / :count, write:short-count
   (a first version of m6 that made prepared messages never compress, and an ncopy off-by-one that only changes the
    fragment sizes, are -- correctly -- reported as drift, exit 2: the property still holds)
  C31 (all caught, exit 1):
@@ -73,7 +85,19 @@ def c30(c):
         # the recursive decoder over the complete histories, small exhaustive configuration
         r2 = c.tlc_exhaustive('WsWriter', 'WsWriter', 'hist.cfg', workers=4, timeout=2400)
         c.log('TLC exhaustive (history invariant): %d distinct states' % r2['distinct'])
+    # buffer ownership under the blocking assumption (two connections, shared LIFO pool): code order is safe
+    rp = c.tlc_exhaustive('WsWriter', 'WsWriterPool', 'pool.cfg', workers=1, timeout=600)
+    c.log('TLC exhaustive (shared write buffer pool, pending writes): %d distinct states' % rp['distinct'])
     binp = c.go_build('wswriter')
+    # 2a. the schedule of that model forced on two real Conns sharing a pool
+    st = c.harness(binp, 'stall', {'rounds': 4 if quick else 40}, timeout=900)
+    c.absorb(st)
+    c.log('stall probe: %d cases (final-frame Write parked / queued behind the write mutex while the other connection '
+          'writes through the same pool), %d completed' % (st['executed'] + len(st.get('drifts') or []), st['completed']))
+    c.cov['traces_validated_against_impl'] += st['completed']
+    c.cov['evaluations'] += st['executed']
+    c.cov['stall_cases'] = st['completed']
+    c.cov.setdefault('replay_counters', {}).update({'stall:' + k: v for k, v in st['counters'].items()})
     # 2. spec -> code: simulated scripts (every state checked against Roundtrip by TLC) replayed into a real Conn
     runs = [('sim.cfg', 300)] if quick else [('sim.cfg', 5000), ('simbig.cfg', 5000)]
     ops = 0
@@ -100,6 +124,7 @@ def c30(c):
     c.assumptions += ['legal API use: one writer at a time (NextWriter/WriteMessage implicitly close an open writer, modelled); WritePreparedMessage only between messages',
                       'compressed messages: frame count and lengths depend on DEFLATE and are not modelled (structure, RSV1 placement and inflated bytes are checked)',
                       'network write errors / deadlines are not modelled (only the sticky ErrCloseSent after a Close frame)',
+                      'stall probe: one stalled write at a time, two connections, harness-owned LIFO BufferPool; the mutex variant waits for a pool Put or a 120 ms grace period',
                       'masking-key freshness (RFC 6455 5.3) is not checked: a prepared message reuses its key by design',
                       'UTF-8 validity of text payloads is the application\'s business']
 
@@ -151,7 +176,7 @@ META = {
     'C30': dict(level='model_checking',
                 text='WsWriter.tla is an implementation-shaped model of the write path (buffer fill and flush rule, first/continuation opcodes, FIN, RSV1, masking, the server large-write and WriteMessage fast paths, prepared messages on their own 4096 byte buffer, control frames, implicit close, the sticky close-sent error) with real byte counts; the property is an independent RFC 6455/RFC 7692 frame-sequence decoder that must accept the wire and return exactly the written messages. TLC checks it exhaustively on bounded scripts and on every state of thousands of simulated scripts, which are then replayed into a real Conn: the wire bytes are parsed and validated by the harness\'s own parser, reassembled/inflated and compared byte for byte, and read back by a real Conn of the opposite role.',
                 note='Bounds: exhaustive 4 API calls, buffers 16/130 (thorough 16/125/130, richer sizes); replay scripts of 14 calls, buffers 16..65536, sizes around B, 2(B+14), 125/126, 4096, 65535/65536. Compressed frame lengths are not modelled. Trusted: TLC, lib/tlaparse.py, the harness parser/validator/comparison code, compress/flate for the independent inflate.',
-                technique='TLA+ spec + TLC exhaustive and simulation; behaviour replay into internal/websocket.Conn; independent wire decoder; real reader round trip',
+                technique='TLA+ spec + TLC exhaustive and simulation; behaviour replay into internal/websocket.Conn; independent wire decoder; real reader round trip; forced-schedule stall probe on two Conns sharing a write buffer pool',
                 design_ref='DESIGN.md 4.3, 8 (C30)'),
     'C31': dict(level='model_checking',
                 text='WsHandshake.tla states the upgrade decision cascade of Upgrader.Upgrade, the close-code and close-reason validity tables and websocketTransport.Close as tables with the RFC 6455 (4.2.1, 4.2.2, 4.4, 7.4, 5.5) properties stated separately and checked by TLC on every row; WsCloseReg.tla is the first-close-wins register with a ghost for the first observed close frame. Every row and every script is replayed into the real code: Upgrader.Upgrade directly and the centrifuge WebsocketHandler behind a real HTTP server, real close frames into server and client connections, the real transport Close, Conn.CloseCode() after every step.',
